@@ -20,6 +20,9 @@ TAGMAPS = [
     ["v4.2.10", "9" * 40, "v5.0.0-beta", "8" * 40],
     [],
     ["v4.2.1", "ERR", "v5.0.0", "d" * 40, "v4.1.7", "ERR"],
+    # comments written without the "v": the advertised tag is the unprefixed one, and only ITS commit may be used
+    ["4.2.1", "7" * 40, "v4.2.1", "c" * 40, "v5.0.0", "d" * 40, "v4.1.7", "e" * 40, "5.0.0", "ERR"],
+    ["v4.2.1", "c" * 40, "v5.0.0", "d" * 40, "v4.1.7", "e" * 40, "v5", "f" * 40],
 ]
 
 
@@ -32,7 +35,8 @@ def streams(ctx):
         for rel in RELEASES:
             for tm in TAGMAPS:
                 for ltag in ["-"]:
-                    f = ["gha", "3", "25", ltag, str(len(rel))] + rel + ["1", "actions/checkout", ver, "S" + H1, "30", "70", "3", "20"]
+                    # (the cursor sits on the second character of the value: inside it however short the version text is)
+                    f = ["gha", "3", "21", ltag, str(len(rel))] + rel + ["1", "actions/checkout", ver, "S" + H1, "30", "70", "3", "20"]
                     f += (["S" + extra[0], str(extra[1]), str(extra[2])] if extra else ["-", "0", "0"])
                     f += [str(len(tm) // 2)] + tm
                     cases.append({"req": vlib.line("ca.run", *f), "tag": (ver, tuple(rel), tuple(tm))})
@@ -41,7 +45,7 @@ def streams(ctx):
     # (b) documents
     dcases = []
     docs = []
-    for comment in ("v4.1.6", None, "v4.1.6 pinned", "v4"):
+    for comment in ("v4.1.6", None, "v4.1.6 pinned", "v4", "4.1.6"):
         for rel in RELEASES[:4]:
             for tm in TAGMAPS:
                 L = render.lay(rng, nonascii=False, crlf=False, quote=rng.choice(["", "", '"', "'"]), blank=rng.chance(1, 2), comment=False,
